@@ -510,7 +510,7 @@ func ruleBklMainInputs(p *Prog, r *Result) {
 	pr := bklMainPaths(p, r, "C03.cli")
 	inputs := func(t *T) bool { return t.Op == "field" && t.Name == "InputPaths" }
 	path := mElemOf(inputs)
-	fm := mCall("bkl.FileMatch", func(t *T) bool { return t.Op == "convert" && path(t.Args[0]) })
+	fm := mCall("bkl.FileMatch", func(t *T) bool { return path(t) || (t.Op == "convert" && path(t.Args[0])) })
 	iter := selectPaths(pr.paths, func(pa *Path) bool {
 		return guardPol(pa, "itermore", mOp("range", inputs), nil) == 1 && (hasCallEffect(pa, "bkl.(*Parser).MergeFile") || hasCallEffect(pa, "bkl.(*Parser).MergeFileLayers"))
 	})
